@@ -9,8 +9,9 @@
    Model/CrashWal.v adds the write-ahead log: [wdisk], the steps of a WAL commit ([wal_tx_steps]: frames, then
    the rename) and of a checkpoint ([ckpt_steps]: page copies, cut, optional restart), and [wrecover] (log cut
    back to the newest file or discarded if of another generation, checkpoint, re-apply).  Between transactions
-   the log holds committed frames only (frames of rolled-back transactions are not modelled).  Drops are
-   covered by the harness oracle only. *)
+   the log holds committed frames only (frames of rolled-back transactions are not modelled).  A drop is
+   [drop_steps] / [wdrop_steps]: tombstone file renamed into place, then database file, journal and log removed
+   (a removed database file = cut to zero pages). *)
 From Coq Require Import NArith List Bool.
 Require Import LF.Model.PageDB LF.Model.Crash LF.Proofs.CrashProofs LF.Model.CrashWal LF.Proofs.CrashWalProofs.
 Import ListNotations.
@@ -73,6 +74,21 @@ Theorem C05_checkpoint_crash_safe : forall (d0 : wdisk) (img0 : file) (x0 : wltx
   same_image (wd_db (wrecover d)) img0 /\ wdisk_pos (wrecover d) = wdisk_pos d0.
 Proof. exact checkpoint_crash_safe. Qed.
 
+(* a drop: before the rename of the tombstone the database is still there, untouched; from the rename on, Open
+   finishes the drop (no pages, no journal, no log) at the tombstone's position *)
+Theorem C05_drop_crash_atomic : forall (d0 : disk) (f : ltxrec) (k : nat),
+  Consistent d0 -> l_commit f = 0 ->
+  let d := krun d0 (firstn k (drop_steps f)) in
+  (same_image (k_db (recover d)) (k_db d0) /\ disk_pos (recover d) = disk_pos d0) \/
+  (f_size (k_db (recover d)) = 0 /\ k_journal (recover d) = None /\ disk_pos (recover d) = (l_max f, l_post f)).
+Proof. exact drop_crash_atomic. Qed.
+Theorem C05_wal_drop_crash_atomic : forall (d0 : wdisk) (img0 : file) (x0 : wltx) (sa0 : N) (fr0 : list wframe) (x : wltx) (k : nat),
+  WConsistent d0 img0 x0 sa0 fr0 -> l_commit (x_ltx x) = 0 ->
+  let d := wrun d0 (firstn k (wdrop_steps x)) in
+  (same_image (wd_db (wrecover d)) img0 /\ wdisk_pos (wrecover d) = wdisk_pos d0) \/
+  (f_size (wd_db (wrecover d)) = 0 /\ wd_wal (wrecover d) = None /\ wdisk_pos (wrecover d) = (l_max (x_ltx x), l_post (x_ltx x))).
+Proof. exact wal_drop_crash_atomic. Qed.
+
 (* no hot journal is left, and recovering again changes nothing: the restarted node can go on *)
 Theorem C05_recover_idempotent : forall d,
   k_journal (recover d) = None /\ same_image (k_db (recover (recover d))) (k_db (recover d)).
@@ -90,4 +106,14 @@ Example C05_nonvacuous :
   (recovered_obs (krun d0 (firstn 6 (tx_steps 3 body f2 4))),
    recovered_obs (krun d0 (firstn 7 (tx_steps 3 body f2 4))))
   = ([1; 77; 3; 11; 12; 13], [2; 88; 4; 21; 22; 13; 24]).
+Proof. vm_compute. reflexivity. Qed.
+
+(* a drop interrupted after the rename but before the database file is removed: Open removes it *)
+Example C05_drop_nonvacuous :
+  let p n := mkPg n 0 false in
+  let f1 := mkLtx 1 1 0 77 3 [(1, p 11); (2, p 12); (3, p 13)] in
+  let t := mkLtx 2 2 77 0 0 [] in
+  let d0 := mk_disk 3 [(1, p 11); (2, p 12); (3, p 13)] None [f1] in
+  (recovered_obs (krun d0 (firstn 0 (drop_steps t))), recovered_obs (krun d0 (firstn 1 (drop_steps t))))
+  = ([1; 77; 3; 11; 12; 13], [2; 0; 0]).
 Proof. vm_compute. reflexivity. Qed.
